@@ -460,8 +460,28 @@ func (u *Unit) inline(p *Path, x *ssa.Call, callee *ssa.Function, args []*Term) 
 		params: map[string]*Term{}, obs: u.obs, order: u.order, trusted: u.trusted, counters: u.counters, siteNames: u.siteNames, inlineDepth: u.inlineDepth + 1,
 		globalsAssumed: u.globalsAssumed}
 	sub.findLoops()
-	if len(sub.loops) > 0 {
-		u.fail("callee %s has loops and no contract", fnDisplay(callee))
+	if len(sub.loops) > 0 || u.inlineDepth >= 2 {
+		// a helper with loops (or too deep a call chain) and no contract: nothing is known about its
+		// result; its may-write set bounds what it can change
+		u.noteUnmodelled("callee " + fnDisplay(callee) + " has loops and no contract: result unconstrained")
+		pre := p.st.Clone()
+		eff := u.v.eff.fns[callee]
+		regs := map[string]*Region{}
+		if eff != nil {
+			for cn := range eff.W {
+				regs[cn] = &Region{Comp: cn, Whole: true}
+			}
+		}
+		u.havocForCall(p, pre, eff, regs)
+		var rs []*Term
+		res := callee.Signature.Results()
+		for i := 0; i < res.Len(); i++ {
+			r := u.cx.Fresh("opaque_"+callee.Name(), u.v.enc.SortOf(res.At(i).Type())).WithT(res.At(i).Type())
+			u.assumeWF(p, r, res.At(i).Type())
+			rs = append(rs, r)
+		}
+		u.setResults(p, x, rs)
+		return
 	}
 	ip := p.clone()
 	// callee-local view: its own SSA values
